@@ -391,6 +391,23 @@ def check(case, mon):
             mon.close(f"interpolate_{lb}", got[:, m], want[:, m], TOL,
                       f"interpolate:not-exact-for-{ftype}:{lb}-point", scale=fscale,
                       detail={"points": x[:, m].T.tolist()[:3]})
+    if exact and n >= 2:
+        # the SAME ndarray object, overwritten in place between two evaluations (a solver
+        # reusing its state array): the second answer must belong to the new content
+        buf = x.copy()
+        table.interpolate(buf)
+        buf[:] = x[:, ::-1]
+        got2 = np.asarray(table.interpolate(buf))
+        mon.count("interpolate_same_array_modified_in_place")
+        mon.close("interpolate_inplace", got2, f.exact(x[:, ::-1]), TOL,
+                  "interpolate:stale-result-for-array-modified-in-place", scale=fscale)
+        if d >= 1 and ftype == "affine":
+            buf = x.copy()
+            table.gradient(buf, 0)
+            buf[:] = x[:, ::-1]
+            mon.close("gradient_inplace", np.asarray(table.gradient(buf, 0)),
+                      np.asarray(table.gradient(x[:, ::-1].copy(), 0)), TOL,
+                      "gradient:stale-result-for-array-modified-in-place", scale=fscale)
     if case.get("single"):
         # a single point handed over as a 1-D array
         for j in range(min(n, 4)):
